@@ -48,6 +48,10 @@ CHECKS = {
          "monotone under adding a point, non-negative, 1-D = max-min; gamut metric: scale invariance and 1 relative to itself (size functional uninterpreted); Jensen-Shannon: symmetry, "
          "invariance to rescaling, similarity = 1 - divergence, negative input rejected (entropy uninterpreted); estimator.compute_hull hands the right cloud and reference. "
          "Monte-Carlo accuracy, rotation invariance, volume/PCA, superset/(0,1] and the log-based Jensen-Shannon bounds are NOT decided", "4 C18"),
+ "C11": ("real lsq_linear_decomposition / fit_decomposition through the cvxpy shim with NMF and generator stubs, loop unrolled to 1 and 2 alternations plus the final refit (and the "
+         "full opacity refit after subsampling): intensities within bounds / zero where masked / equal layer totals, opacities within bounds, fitted capture = P X A^T + baseline, the "
+         "factor fitted last is globally optimal given the other (instance at an arbitrary competitor), the error never increases from one solve to the next (instances at the "
+         "previous iterate), seed wiring", "4 C11"),
  "C05": ("exhaustive grid of (n_samples, batch_size) incl. non-dividing, larger-than-n and 'full' for the gaussian, poisson and excitation models: the real batching code "
          "(padding, block-diagonal stacking, scatter) runs on symbolic contents through the cvxpy shim; z3 decides per row: no exception, the result row is its own block of the "
          "stacked solution, it is optimal for its own target/weights alone (separability instance of the stacked contract), and the stacked problem is feasible whenever each row's is", "4 C05"),
